@@ -50,6 +50,18 @@ func (p *ptrStrer) String() string {
 	return p.s
 }
 
+// sliceErr is an error of slice kind; its nil value is still an error with a text.
+type sliceErr []string
+
+const sliceErrText = "slice error with no entries"
+
+func (s sliceErr) Error() string {
+	if len(s) == 0 {
+		return sliceErrText
+	}
+	return s[0]
+}
+
 // mkStringer builds the Stringer a Val of type stringer stands for.
 func mkStringer(v Val) fmt.Stringer {
 	switch {
@@ -104,6 +116,8 @@ func mkErr(v Val) error {
 		return (*ptrErr)(nil)
 	case "objerr":
 		return &objErr{string(v.S)}
+	case "nilslice":
+		return sliceErr(nil) // an error of slice type (like scanner.ErrorList) holding a nil slice: not a nil error
 	case "stacked":
 		return pkgerr.New(string(v.S)) // github.com/pkg/errors: carries a stack trace for pkgerrors.MarshalStack
 	}
